@@ -1,5 +1,6 @@
 //! Stand-in for `dashmap` 5.x, restricted to the API subset used by ddo (`get`, `entry` + `and_modify` / `or_insert`,
-//! `OccupiedEntry::get_mut`, `VacantEntry::insert`, `clear`, `Default`, `Debug`).
+//! `OccupiedEntry::get_mut`, `VacantEntry::insert`, `clear`, `Default`, `Debug`), plus the neighbouring operations a
+//! change of ddo could plausibly switch to (`get_mut`, `insert`, `remove`, `contains_key`, `retain`, `len`).
 //!
 //! It models dashmap's locking discipline with loom primitives so that loom can explore every interleaving of
 //! ddo's use of the map:
@@ -51,6 +52,26 @@ impl<K: Eq + Hash, V, S: BuildHasher + Clone> DashMap<K, V, S> {
             mapref::entry::Entry::Occupied(mapref::entry::OccupiedEntry { guard, key })
         } else {
             mapref::entry::Entry::Vacant(mapref::entry::VacantEntry { guard, key })
+        }
+    }
+    pub fn get_mut<Q>(&self, key: &Q) -> Option<mapref::one::RefMut<'_, K, V, S>>
+    where K: Borrow<Q>, Q: Hash + Eq + ?Sized {
+        let mut guard = self.shards[self.shard_of(key)].write().unwrap();
+        let ptr: Option<*mut V> = guard.get_mut(key).map(|v| v as *mut V);
+        ptr.map(|value| mapref::one::RefMut { guard, value, _k: std::marker::PhantomData })
+    }
+    pub fn contains_key<Q>(&self, key: &Q) -> bool
+    where K: Borrow<Q>, Q: Hash + Eq + ?Sized {
+        self.shards[self.shard_of(key)].read().unwrap().contains_key(key)
+    }
+    pub fn remove<Q>(&self, key: &Q) -> Option<(K, V)>
+    where K: Borrow<Q>, Q: Hash + Eq + ?Sized {
+        self.shards[self.shard_of(key)].write().unwrap().remove_entry(key)
+    }
+    pub fn retain(&self, mut f: impl FnMut(&K, &mut V) -> bool) {
+        for s in self.shards.iter() {
+            let mut g = s.write().unwrap();
+            g.retain(|k, v| f(k, v));
         }
     }
     pub fn insert(&self, key: K, value: V) -> Option<V> {
